@@ -110,9 +110,10 @@ pub struct Run {
     /// another property does not stop the history, it is kept in `other`.
     pub focus: Option<&'static str>,
     pub other: Option<Violation>,
-    /// a second property that a panic inside a library call contradicts in this world (e.g. an
-    /// arithmetic overflow in the semaphore's permit accounting is an over-grant: C05)
-    pub panic_also: Option<&'static str>,
+    /// a second property that a panic inside a library call contradicts in this world, and the
+    /// text the panic message must contain (e.g. an arithmetic overflow in the semaphore's permit
+    /// accounting is an over-grant: C05)
+    pub panic_also: Option<(&'static str, &'static str)>,
     /// the property a panic inside a library call contradicts first in this world (data structure
     /// worlds: a panic of the list / heap / ring buffer on a precondition-respecting sequence is a
     /// failure of C20 / C19 itself); `None` = C01
@@ -205,7 +206,7 @@ impl Run {
             Err(msg) => {
                 match (self.panic_prop, self.panic_also) {
                     (Some(p), _) => self.violate2(p, "C01", "panic", format!("{} panicked: {}", what, msg)),
-                    (None, Some(also)) if msg.contains("overflow") => self.violate2("C01", also, "panic", format!("{} panicked: {}", what, msg)),
+                    (None, Some((also, needle))) if msg.contains(needle) => self.violate2("C01", also, "panic", format!("{} panicked: {}", what, msg)),
                     _ => self.violate("C01", "panic", format!("{} panicked: {}", what, msg)),
                 }
                 None
